@@ -149,8 +149,9 @@ Theorem pump_progress_refuted_two_readers : forall cf,
     e_got (dB c) <> e_written (dA c).
 Proof.
   intros cf fl. destruct (two_readers_stuck cf) as [c [Hx [Hs [Hu [Hg [Hw Ht]]]]]].
-  exists two_readers_trace, c. split; [exact Hx |]. split; [apply stuckb_sound; exact Hs |]. split.
-  - destruct (tasks_of (dB c)) as [| t0 [| t1 [| t2 rest]]] eqn:Et; try discriminate.
+  exists two_readers_trace, c. split; [exact Hx |]. split; [apply stuckb_sound; exact Hs |].
+  clear Hx Hs. split.
+  - destruct (tasks_of (dB c)) as [| t0 [| t1 [| t2 rest]]]; try (cbn in Ht; discriminate Ht).
     exists 2, t2. cbn in Ht. inversion Ht. cbn. auto.
   - split.
     + unfold unread_record in Hu. destruct (parse1 Dw (i_rbio (e_ideal (dB c)))) as [r |]; [eauto | discriminate].
